@@ -568,8 +568,8 @@ def _removal_complete(chk, repo):
     """REMOVE-1: the removal API takes away *every* registration it is asked to: the scan over a handler list is never left early and
     removes exactly the entries that match (handler / key), so that delivery after a removal is complete with respect to the history
     of registrations and removals (a callable registered twice is gone after one remove)."""
-    from sa.helpers import inloop_guards
-    from sa.cfg import canon_fact
+    from sa.helpers import inloop_guards, positive
+    from sa.cfg import canon_fact, canon_set
     n = 0
     for name, match in (("remove_handler", ("handler_tup[0] == method",)), ("remove_handler_by_event", ("handler_tup[0] == handler",)),
                         ("remove_handler_by_key", ("handler_tup.key == key.key",))):
@@ -591,6 +591,68 @@ def _removal_complete(chk, repo):
             chk.ob("REMOVE-1", "%s removes exactly the registrations that match" % name, got == want, f.where(c), detail="selected by %s" % sorted(got),
                    construct=f.ident, text="removal match in " + name)
     chk.ob("REMOVE-1", "removal scans examined", n >= 3, EV + ":1", detail=str(n), nontrivial=False)
+    # replace_handler: takes away exactly the old registrations of that handler (with these kwargs, when kwargs are given) and always registers
+    f = repo.func(EV, EM + ".replace_handler")
+    chk.analysed(f)
+    cfg = f.cfg()
+    rms = [(x, c) for x, c in cfg.calls_named("remove") if c.args and isinstance(c.args[0], ast.Name)]
+    chk.need(len(rms) == 2, "REMOVE-1", "replace_handler removes old registrations (with / without kwargs)", f)
+    for x, c in rms:
+        lps = [h for h in cfg.nodes if h.kind == "loop" and any(y is c for y in ast.walk(h.ast))]
+        chk.need(lps, "REMOVE-1", "replace_handler scans the handler list", f)
+        lp = lps[-1]
+        v = src(c.args[0])
+        with_kw = cfg.guards_at(lp.id).get("kwargs") is True
+        want = {canon_fact("%s[0] == handler" % v, True)} | ({canon_fact("%s[2] == kwargs" % v, True)} if with_kw else set())
+        got = inloop_guards(cfg, x.id, lp.id)
+        early = [y for y in ast.walk(lp.ast) if isinstance(y, (ast.Break, ast.Return))]
+        chk.ob("REMOVE-1", "replace_handler (%s kwargs) removes exactly the old registrations of that handler, all of them" % ("with" if with_kw else "without"),
+               got == want and not early, f.where(c), detail="selected by %s" % sorted(got), construct=f.ident,
+               text="replace_handler removal %s" % ("kw" if with_kw else "plain"))
+    adds = [x for x, c in cfg.calls_named("add_handler") if [src(a) for a in c.args] == ["event", "handler", "priority"] and
+            [(k.arg, src(k.value)) for k in c.keywords] == [(None, "kwargs")]]
+    ok = len(adds) == 1 and cfg.must_pass(cfg.entry.id, [adds[0].id], ends=[cfg.exit.id]) is None
+    chk.ob("REMOVE-1", "replace_handler always registers the new handler (event, handler, priority, **kwargs)", ok, f.where(), construct=f.ident,
+           text="replace_handler registers")
+    # an event's entry is dropped only when its list is empty
+    f = repo.func(EV, EM + "._remove_event_if_empty")
+    chk.analysed(f)
+    cfg = f.cfg()
+    dels = [x for x in cfg.nodes if x.kind == "stmt" and isinstance(x.ast, ast.Delete) and "registered_handlers" in src(x.ast)]
+    chk.need(len(dels) == 1, "REMOVE-1", "_remove_event_if_empty drops the entry", f)
+    g = positive(set(canon_set(cfg.guards_at(dels[0].id))))
+    ok = canon_fact("self.registered_handlers[event]", False) in g and src(dels[0].ast.targets[0]) == "self.registered_handlers[event]"
+    chk.ob("REMOVE-1", "an event's handler list is dropped only when it is empty", ok, f.where(dels[0].ast), detail=str(sorted(g)), construct=f.ident,
+           text="drop only empty")
+    # waiting for one of several events: one handler per name, all of them removed by the first that fires, which resolves the future with its kwargs
+    f = repo.func(EV, EM + ".wait_for_any_event")
+    w = repo.func(EV, EM + "._wait_handler")
+    chk.analysed(f, w)
+    cfg = f.cfg()
+    ah = [(x, c) for x, c in cfg.calls_named("add_handler")]
+    lps = [h for h in cfg.nodes if h.kind == "loop"]
+    ok = len(ah) == 1 and len(lps) == 1 and not inloop_guards(cfg, ah[0][0].id, lps[0].id) and src(lps[0].ast.iter) == "event_names" and \
+        not [y for y in ast.walk(lps[0].ast) if isinstance(y, (ast.Break, ast.Return, ast.Continue))]
+    if ok:
+        c = ah[0][1]
+        part = c.args[1] if len(c.args) > 1 else None
+        ok = src(c.args[0]) == src(lps[0].ast.target) and isinstance(part, ast.Call) and src(part.args[0]) == "self._wait_handler" and \
+            {(k.arg, src(k.value)) for k in part.keywords} >= {("_future", "future"), ("_keys", "keys")}
+        par = [y for y in ast.walk(f.node) if isinstance(y, ast.Call) and call_attr(y) == "append" and src(y.func.value) == "keys" and y.args and y.args[0] is c]
+        ok = ok and len(par) == 1
+    chk.ob("REMOVE-1", "wait_for_any_event registers one waiter per event name, all sharing the future and the key list they are recorded in", ok, f.where(),
+           construct=f.ident, text="wait_for_any_event registration")
+    wc = w.cfg()
+    rm = [(x, c) for x, c in wc.calls_named("remove_handler_by_key")]
+    lps = [h for h in wc.nodes if h.kind == "loop"]
+    ok = len(rm) == 1 and len(lps) == 1 and not inloop_guards(wc, rm[0][0].id, lps[0].id) and src(lps[0].ast.iter) == "_keys" and \
+        [src(a) for a in rm[0][1].args] == [src(lps[0].ast.target)] and not [y for y in ast.walk(lps[0].ast) if isinstance(y, (ast.Break, ast.Return, ast.Continue))]
+    chk.ob("REMOVE-1", "the first waiter that fires removes every waiter of the group", ok, w.where(), construct=w.ident, text="waiter group removed")
+    sr = [(x, c) for x, c in wc.calls_named("set_result")]
+    ok = len(sr) == 1 and [src(a) for a in sr[0][1].args] == ["kwargs"] and \
+        positive(set(canon_set(wc.guards_at(sr[0][0].id)))) == {canon_fact("_future.cancelled()", False)} and bool(lps) and wc.dominates(lps[0].id, sr[0][0].id)
+    chk.ob("REMOVE-1", "the waiting future gets the event's kwargs unless it was cancelled, after the waiters are gone", ok, w.where(), construct=w.ident,
+           text="waiter result")
 
 
 def _sort_rule(chk, f_add):
@@ -956,6 +1018,11 @@ def battery():
         M("twin: handler list aliased in add_handler", EV, "        self.registered_handlers[event].append(RegisteredHandler(handler, priority, kwargs, key, condition,\n                                                                 blocking_facility))", "        handlers = self.registered_handlers[event]\n        handlers.append(RegisteredHandler(handler, priority, kwargs, key, condition,\n                                                                 blocking_facility))", None),
         M("remove_handler_by_event removes only the first registration", EV, "                    events_to_delete_if_empty.append(event)\n\n        for this_event in events_to_delete_if_empty:", "                    events_to_delete_if_empty.append(event)\n                    break\n\n        for this_event in events_to_delete_if_empty:", "REMOVE-1"),
         M("removal by key also needs the same priority", EV, "            if handler_tup.key == key.key:", "            if handler_tup.key == key.key and handler_tup.priority >= 0:", "REMOVE-1"),
+        M("replace_handler with kwargs removes every registration of the handler", EV, "                    if rh[0] == handler and rh[2] == kwargs:", "                    if rh[0] == handler:", "REMOVE-1"),
+        M("replace_handler stops at the first old registration", EV, "                    if rh[0] == handler:\n                        self.registered_handlers[event].remove(rh)\n\n", "                    if rh[0] == handler:\n                        self.registered_handlers[event].remove(rh)\n                        break\n\n", "REMOVE-1"),
+        M("event entry dropped while handlers remain", EV, "        if not self.registered_handlers[event]:  # if value is empty list", "        if self.registered_handlers[event]:  # if value is empty list", "REMOVE-1"),
+        M("waiter group: only the fired waiter is removed", EV, "        for key in _keys:\n            self.remove_handler_by_key(key)\n", "        for key in _keys[:1]:\n            self.remove_handler_by_key(key)\n", ["REMOVE-1", "RANGE-0"]),
+        M("waiting future resolved without the event's kwargs", EV, "        _future.set_result(kwargs)", "        _future.set_result(True)", "REMOVE-1"),
     ]
 
 
